@@ -17,8 +17,49 @@ import numpy as np
 from harness import common as C
 
 THEOREMS = 'Properties/C03.v'
-CLAIM = dict(text='TBD', note='TBD', technique='Coq proof + float replay correspondence')
-TRUSTED = []
+CLAIM = dict(
+    text='Coq theorems about the models Model/Svd.v (rank_select, matrix_skeleton, svd: mirror of teneva/svd.py with '
+         'give_to="r" in the sweep) and Model/SvdMatrix.v (svd_matrix, full_matrix), unbounded in d, mode sizes and ranks. '
+         'PROVED IN FULL: (1) C03_svd_wf, for every oracle: result has the mode sizes of the input, boundary ranks 1, matching '
+         'consecutive ranks, every rank in 1..max(1,int r); C03_rank_select_bounds: 1<=q<=max(1,r), q<=max(1,len). '
+         '(2) C03_sweep_error_identity, any commutative ring: for every run whose recorded np.linalg.svd answers meet the '
+         'contract (A=U diag(s) V, U^T U=I, V V^T=I), the squared Frobenius error of the produced chain against the dense '
+         'remainder EQUALS the sum of the tail energies discarded by the steps; C03_skeleton_residual: one step (left factor '
+         'orthonormal, residual orthogonal to it, |residual|^2 = discarded energy). (3) at the reals: C03_rank_select_tail (cap '
+         'not binding => discarded energy <= e^2), C03_svd_error_sq (error^2 = sum of tails <= (d-1) e^2), C03_svd_error '
+         '(error <= e sqrt(d-1), no hypothesis on the magnitude of the data), C03_svd_error_contract (same, for every routine '
+         'meeting the contract on all non-empty matrices, cap >= number of entries), C03_svd_exact / C03_svd_exact_e0 (zero '
+         'discarded energy, e.g. e=0 without binding cap => every entry reproduced exactly). (4) C03_skeleton_variants: the '
+         'three give_to give factors m x q, q x n with the same q and the same product U_q diag(s_q) V_q (give_to="m" under '
+         'sqrt(x)^2=x); rel=True selects q from s/s_0 (by definition of skel_rank). (5) C03_interleave_get, '
+         'C03_full_matrix_get (both orders), C03_interleave_inv, every q>=1: svd_matrix stores Y[i,j] at t_k=bit_k(i)+2bit_k(j); '
+         'full_matrix(order="F") reads exactly that position back, so its entrywise error is the TT-SVD error re-indexed and '
+         'an exact decomposition returns Y; C03_svd_matrix_error (reals): Frobenius error of full_matrix(svd_matrix(A,e)) '
+         '<= e sqrt(q-1) (the interleaving is a bijection of index sets: sums over entries = sums over positions). '
+         'NOT PROVED, checked numerically by the search only (need Eckart-Young / singular value interlacing): product of the '
+         'factors is a BEST rank-q approximation; each TT-rank <= smallest rank whose tail energy in the unfolding of the INPUT '
+         'is <= e; "exactly those ranks" for exact-rank inputs; minimality of q in the rank rule (q>1 => tail(q-1) > e^2) is '
+         'tied by the bit-exact threshold stream and the search, not proved; the Frobenius norm of the full_matrix round trip as '
+         'a sum (only the entrywise transport is proved); matrix_svd belongs to C02 (searched lightly here).',
+    note='Model tied to /repo on every run by bit-for-bit comparison (PrimFloat instance, recorded np.linalg.svd outputs '
+         'replayed by call number) of every core of svd / svd_matrix and both factors of matrix_skeleton, incl. e placed exactly '
+         'at and 1e-9 around every rank change; exact Z comparison of the interleaved array (captured from svd_matrix) and of '
+         'full_matrix in both orders; malformed shapes by exception class. Reverting fix 9b72a17 (give_to="r") is detected by '
+         'correspondence and by the search (error bound at scales >> 1).',
+    technique='Coq proof (structural induction over the sweep with a Pythagoras step; ring-generic, then Reals) + '
+              'bit-exact float replay correspondence + dense numpy reference search')
+TRUSTED = ['Coq 8.16.1 kernel; vm_compute only for case evaluation; Reals axioms of the standard library under the R theorems',
+           'hand-written models Model/Svd.v (svd, matrix_skeleton, rank_select) and Model/SvdMatrix.v, tied to teneva by '
+           'bit-exact / exact correspondence on every run',
+           'oracle contract svd_ok for np.linalg.svd(full_matrices=False): A = U diag(s) V, U^T U = I, V V^T = I, '
+           '1 <= len(s) <= columns (validated numerically to 1e-11 on every recorded call; sortedness not needed by the proofs)',
+           'numpy semantics of reshape (C and F order), transpose, diag, @ with a diagonal factor, cumsum (sequential), '
+           'where; e**2 modelled as e*e (generated e satisfy e**2 == e*e exactly)',
+           'IEEE rounding is outside the theorems (exact arithmetic); the float instance of the same terms is only executed']
+ASSUMPTIONS = ['mode sizes are positive; int(r) is passed to the model as an integer',
+               'error theorems: the recorded answers of np.linalg.svd on the calls of the run meet svd_ok (calls_ok), and the '
+               'rank cap does not bind (cap_free; implied by r >= number of entries)',
+               'full_matrix is modelled for chains with boundary ranks 1']
 TIME_LIMIT = {'quick': 900, 'thorough': 5400}
 
 HEADER = r'''
@@ -74,12 +115,12 @@ def _orc(calls):
 def _zmat(A):
     A = np.asarray(A)
     m, n = A.shape
-    return f'(mk_mat {m} {n} {C.nested(A.astype(int).tolist(), C.zlit)})'
+    return f'(mk_mat {m} {n} {C.nested(A.astype(int).tolist(), C.zlit)}%Z)'
 
 
 def _zcore(G):
     G = np.asarray(G)
-    return f'(mk_core {G.shape[0]} {G.shape[1]} {G.shape[2]} {C.nested(G.astype(int).tolist(), C.zlit)})'
+    return f'(mk_core {G.shape[0]} {G.shape[1]} {G.shape[2]} {C.nested(G.astype(int).tolist(), C.zlit)}%Z)'
 
 
 class SvdRec:
@@ -475,7 +516,7 @@ def _full(Y):
 def _need(s, e):
     """smallest q whose discarded tail sqrt(sum_{i>=q} s_i^2) <= e"""
     t = np.sqrt(np.concatenate([np.cumsum(s[::-1] ** 2)[::-1], [0.0]]))
-    return int(np.argmax(t <= e))
+    return int(np.argmax(t <= e)) if e >= 0 else len(s)
 
 
 def _clause_svd(tn, A, e, r, exact_ranks=None):
@@ -610,9 +651,27 @@ def _clause_msvd(tn, A, e, r):
     return None
 
 
+def _clause_thr(tn, p):
+    """tail energy EXACTLY equal to the budget (integer data, exact in binary64): the size with tail == e is taken"""
+    A = np.diag(np.array(p['diag'], float)) * p['scale']
+    e = p['e'] * p['scale']
+    s = np.linalg.svd(A, compute_uv=False)
+    if not np.array_equal(s, np.sort(np.abs(np.diag(A)))[::-1]):
+        return None                      # LAPACK did not return the exact singular values: nothing to test
+    U, V = tn.matrix_skeleton(A, e, RDEF)
+    Y = tn.svd(A, e, RDEF)
+    got = [U.shape[1], Y[0].shape[2]]
+    if got != [p['want'], p['want']]:
+        return dict(what='rank rule: a size whose discarded tail energy equals e exactly is not accepted '
+                         '(or a larger tail is)', input=p, got=got, expected=p['want'])
+    return None
+
+
 def _run_clause(tn, p):
     k = p['kind']
     with np.errstate(all='ignore'):
+        if k == 'skeleton_thr':
+            return _clause_thr(tn, p)
         if k == 'svd':
             return _clause_svd(tn, _unpack(p['A']), float.fromhex(p['e']), p['r'])
         if k == 'svd_matrix':
@@ -677,8 +736,13 @@ def search(R, ctx, deep, hints):
 
     for h in hints[:20]:
         inp = h.get('input')
-        if isinstance(inp, dict) and inp.get('kind') in ('svd', 'svd_matrix', 'skeleton'):
+        if isinstance(inp, dict) and inp.get('kind') in ('svd', 'svd_matrix', 'skeleton', 'skeleton_thr'):
             ev(inp)
+    # exact thresholds (tail energy == e): diag(5,4,3): tails 5*sqrt(2), 5, 3
+    for sc in (1.0, 2.0 ** -20, 2.0 ** 20):
+        for diag, e, want in (([5, 4, 3], 3, 2), ([5, 4, 3], 5, 1), ([4, 3], 3, 1), ([3, 4, 12], 5, 1),
+                              ([5, 4, 3], 2.999999, 3), ([5, 4, 3], 4.999999, 2)):
+            ev(dict(kind='skeleton_thr', diag=diag, e=e, want=want, scale=sc))
     # degenerate families first
     for ns in ([2, 2], [3, 1, 2], [1, 1], [2, 3, 2], [4, 1], [1, 3, 1, 2]):
         for sc in (1e-6, 1.0, 1e6):
